@@ -29,11 +29,15 @@ type C15Case struct {
 	Chunks   []int    `json:"chunks"`
 	BufSize  int      `json:"buf_size"` // 0 plain source; else *bufio.Reader of that size
 	Reads    []int    `json:"reads"`
+	Once     bool     `json:"once,omitempty"`   // the source fails once and then carries on delivering (the Reader's error must still stick)
 	OnlyK    int      `json:"only_k,omitempty"` // replay: just this k (-1 = all)
 }
 
 func sourceErr(kind int) error {
-	switch kind % 5 {
+	switch kind % 6 {
+	case 5:
+		// a deadline-style error (Timeout() == true), as net.Conn / os.File report
+		return &os.PathError{Op: "read", Path: "conn", Err: os.ErrDeadlineExceeded}
 	case 4:
 		// an error value that wraps io.EOF is still not io.EOF
 		return fmt.Errorf("connection reset while reading: %w", io.EOF)
@@ -71,8 +75,12 @@ func drawC15(t *rapid.T) C15Case {
 		}
 		c.Members = append(c.Members, m)
 	}
-	c.ErrKind = rapid.IntRange(0, 4).Draw(t, "errkind")
+	c.ErrKind = rapid.IntRange(0, 5).Draw(t, "errkind")
 	c.FailWith = rapid.Bool().Draw(t, "failwith")
+	// a recovering source only together with "error alone": when an error arrives together with exactly
+	// the bytes an io.ReadFull was waiting for, io.ReadFull itself drops it (standard library semantics,
+	// identical in compress/gzip), so a source that then recovers never shows the error again
+	c.Once = !c.FailWith && rapid.IntRange(0, 2).Draw(t, "once") == 0
 	if rapid.Bool().Draw(t, "chunked") {
 		k := rapid.IntRange(1, 4).Draw(t, "nch")
 		for i := 0; i < k; i++ {
@@ -135,7 +143,7 @@ func checkC15(c C15Case, record func(k int, nontrivial bool, labels []string)) (
 		}
 	}
 	for _, k := range ks {
-		src := &iox.Chunked{Data: z, Sizes: c.Chunks, FailAt: k, FailErr: want, FailWith: c.FailWith}
+		src := &iox.Chunked{Data: z, Sizes: c.Chunks, FailAt: k, FailErr: want, FailWith: c.FailWith, FailOnce: c.Once}
 		if len(c.Chunks) == 1 {
 			src.Rest = c.Chunks[0]
 		}
